@@ -169,11 +169,23 @@ def case_model_fix(ctx, r, B):
     form = None
     if many:
         fsrc, form = fixed_src(r, R, fixed)
-        call = f'n.fix_variables({fsrc})'
+        if form in ONE_SHOT:
+            # keep the iterator object: the front makes ONE pass, so it is exhausted afterwards (Lean: qm_fix_variables_any_form)
+            R.do(f'it_ = {fsrc}')
+            call = 'n.fix_variables(it_)'
+        else:
+            call = f'n.fix_variables({fsrc})'
         ctx.tick(f'fixed given as {form}')
     else:
         call = f'n.fix_variable({fixed[0][0]!r}, {vrepr(fixed[0][1])})'
     R.do(call)
+    if many and form in ONE_SHOT:
+        left = list(R['it_'])
+        ctx.tick('one-shot `fixed` left exhausted' if not left else 'one-shot `fixed` NOT exhausted')
+        if left:
+            ctx.fail('correspondence', 'QuadraticViewsMixin.fix_variables', 'fixed given as a one-shot iterable',
+                     f'after an accepted call the iterator still yields {left}; the model of the front consumes it in one pass',
+                     detail=dict(script=R.lines[4:]))
     for _, a in fixed:
         if isinstance(a, Val):
             ctx.tick('fix value: NumPy scalar ' + a.src.split('(')[0])
@@ -467,6 +479,222 @@ def case_poly_fix(ctx, r, B):
                 'for s, e in ss.data(["sample", "energy"]):\n    s = dict(s)\n    assert F(e) == poly_sum(p, s), (s, e, poly_sum(p, s))\n'))
 
 
+# ------------------------------------------------------------------------------------------ histories on ONE object (round 7)
+
+RECORDER_SRC = ('class Recorder(dimod.PolySampler):\n'
+                '    """exact child that remembers every polynomial it was asked to sample"""\n'
+                '    parameters = {}\n'
+                '    properties = {}\n'
+                '    def __init__(self):\n'
+                '        self.seen = []\n'
+                '    def sample_poly(self, poly, **kwargs):\n'
+                '        self.seen.append(BinaryPolynomial(poly, poly.vartype))\n'
+                '        return dimod.ExactPolySolver().sample_poly(poly)')
+
+
+def case_composite_history(ctx, r, B):
+    """ONE PolyFixedVariableComposite object is called 2-4 times: the same polynomial object, an equal copy, the polynomial edited
+    in place between the calls, or another polynomial; the same set of fixed variables with other values, the same values, another
+    set, none.  After every call: the polynomial the child received is the original with the values substituted (coefficient for
+    coefficient, hence at every assignment of the rest) and every returned row carries the original polynomial's energy."""
+    R = Recipe()
+    R.do(RECORDER_SRC)
+    vt = r.choice(['SPIN', 'BINARY'])
+    n = r.choice([2, 3, 3, 4, 5])
+    labels = r.sample(LABELS, n)
+
+    def rand_terms():
+        terms = {}
+        for _ in range(r.choice([2, 3, 5])):
+            t = tuple(r.sample(labels, min(r.choice([0, 1, 2, 2, 3, 4]), n)))
+            if not any(set(t) == set(k_) for k_ in terms):
+                terms[t] = q8(r)
+        return terms
+    R.do(f'p = BinaryPolynomial({rand_terms()!r}, {vt!r})')
+    R.do('child = Recorder(); comp = dimod.PolyFixedVariableComposite(child)')
+    site = 'PolyFixedVariableComposite.sample_poly'
+    prev_fixed = None
+    ncalls = r.randint(2, 4)
+    for ci in range(ncalls):
+        what_poly = 'same object'
+        if ci:
+            wp = r.choice(['same', 'same', 'same', 'copy', 'edit', 'other'])
+            if wp == 'copy':
+                R.do('p = BinaryPolynomial(dict(p), p.vartype)'); what_poly = 'an equal copy'
+            elif wp == 'edit':
+                t = tuple(r.sample(labels, r.choice([1, 2])))
+                R.do(f'p[{t!r}] = {fl(q8(r))}'); what_poly = 'the object edited in place'
+            elif wp == 'other':
+                R.do(f'p = BinaryPolynomial({rand_terms()!r}, {vt!r})'); what_poly = 'another polynomial'
+        p = R['p']
+        if prev_fixed is not None and r.random() < .7 and prev_fixed:
+            # the same variables as in the previous call, other values (at least one differs when possible)
+            fixed = {v: r.choice(DOMS[vt]) for v in prev_fixed}
+            if fixed == prev_fixed and r.random() < .8:
+                v = r.choice(list(fixed))
+                fixed[v] = [a for a in DOMS[vt] if a != fixed[v]][0]
+            if r.random() < .3:
+                fixed = dict(perm_of(r, list(fixed.items())))
+            what_fixed = 'the same fixed variables with ' + ('the same values' if fixed == prev_fixed else 'other values')
+        else:
+            k = r.choice([0, 1, 1, 2, 2, n - 1])
+            fixed = {v: r.choice(DOMS[vt]) for v in r.sample(labels, min(k, n - 1))}
+            what_fixed = 'no fixed variables' if not fixed else 'first call' if prev_fixed is None else 'another set of fixed variables'
+        entry = r.choice(['sample_poly', 'sample_poly', 'sample_hising', 'sample_hubo']) if len(p) else 'sample_poly'
+        if entry == 'sample_hising' and vt == 'SPIN':
+            R.do('h_, J_, off_ = p.to_hising()')
+            R.do(f'ss = comp.sample_hising(h_, J_, fixed_variables={fixed!r})')
+        elif entry == 'sample_hubo' and vt == 'BINARY':
+            R.do('H_, off_ = p.to_hubo()')
+            R.do(f'ss = comp.sample_hubo(H_, fixed_variables={fixed!r})')
+        else:
+            entry = 'sample_poly'
+            R.do(f'ss = comp.sample_poly(p, fixed_variables={fixed!r})')
+        ss, child = R['ss'], R['child']
+        P = GP({tuple(t): b for t, b in p.items()})
+        if entry != 'sample_poly':
+            P.t.pop((), None)      # sample_hising / sample_hubo submit the terms without the offset
+        ic = (f'call {ci + 1} on one composite object: ' + (what_poly if ci else 'fresh') + ', ' + what_fixed) if ci else \
+            ('single call' + ('; no fixed variables' if not fixed else ''))
+        ctx.tick(f'{site}: {"repeated call on one object" if ci else "first call"} ({entry})')
+        if ci:
+            ctx.tick(f'composite history: {what_poly}, {what_fixed}')
+        ctx.case((site, tuple(R.lines[4:])), nontrivial=bool(fixed))
+        repro = R.script('\n'.join([
+            'import itertools, math',
+            f'fixed = {fixed!r}',
+            f'orig = {dict(P.t)!r}    # the terms submitted in the last call',
+            'reduced = child.seen[-1]',
+            'rest = sorted({v for t in orig for v in t} - set(fixed), key=repr)',
+            f'for vals in itertools.product({DOMS[vt]!r}, repeat=len(rest)):',
+            '    x = dict(zip(rest, vals)); full = {**x, **fixed}',
+            '    want = sum(Fraction(c) * math.prod(full[v] for v in k) for k, c in orig.items())',
+            '    got = poly_sum(reduced, {**{v: 0 for v in reduced.variables}, **x})',
+            '    assert got == want, (fixed, x, got, want)', '']))
+        expect = P.substitute({v: (Fraction(0), F(a)) for v, a in fixed.items()})
+        if not child.seen:
+            ctx.fail('property', site, ic, 'child was not called', repro=repro)
+            return
+        got = GP({tuple(t): b for t, b in child.seen[-1].items()})
+        if got.nz() != expect.nz():
+            ctx.fail('property', site, ic, f'polynomial handed to the child {got.nz()} differs from the substituted polynomial {expect.nz()} '
+                     f'(fixed {fixed}); calls: {[ln for ln in R.lines if "comp.sample" in ln]}', repro=repro, detail=dict(script=R.lines[4:]))
+            return
+        for s_, e_ in ss.data(['sample', 'energy']):
+            s_ = dict(s_)
+            full = {**{v: DOMS[vt][0] for v in labels}, **s_}
+            if any(s_.get(v) != a for v, a in fixed.items()) or F(e_) != P.eval(full):
+                ctx.fail('property', site, ic, f'row {s_} energy {e_}: fixed values {fixed}, the polynomial gives {P.eval(full)}', repro=repro,
+                         detail=dict(script=R.lines[4:]))
+                return
+        prev_fixed = dict(fixed)
+
+
+def case_fix_twice(ctx, r, B):
+    """two fixing calls on ONE model object with different arguments: the copying CQM path twice on the same source (same variables,
+    other values / other order / another subset), and the in-place paths (CQM, BQM, QM) applied twice in sequence"""
+    R = Recipe()
+    which = r.choice(['cqm-copy', 'cqm-copy', 'cqm-inplace', 'model'])
+    if which == 'model':
+        if r.random() < .5:
+            dtype = r.choice(['np.float64', 'object'])
+            labels, vt = gen_bqm(r, R, dtype=dtype, nmax=5)
+            vts = {v: vt for v in labels}
+            cls = 'BQM' + ('[object]' if dtype == 'object' else '')
+        else:
+            labels, vts = gen_qm(r, R, nmax=5, dtype='np.float64')
+            cls = 'QM'
+        if len(labels) < 2:
+            return
+        m0 = R['m']
+        k1 = r.randint(1, len(labels) - 1)
+        f1 = [(v, r.choice(DOMS[vts[v]])) for v in r.sample(labels, k1)]
+        rest1 = [v for v in labels if v not in dict(f1)]
+        f2 = [(v, r.choice(DOMS[vts[v]])) for v in r.sample(rest1, r.randint(1, len(rest1)))]
+        R.do('n = m.copy()')
+        s1, _ = fixed_src(r, R, f1)
+        s2, _ = fixed_src(r, R, f2)
+        R.do(f'n.fix_variables({s1})')
+        R.do(f'n.fix_variables({s2})')
+        site, ic = f'{cls}.fix_variables', 'two calls in sequence on one object'
+        ctx.tick(site + ' (twice on one object)')
+        ctx.case((site, 'twice', tuple(R.lines[4:])), nontrivial=True)
+        both = dict(f1 + f2)
+        expect = GP.of_model(m0).substitute({v: (Fraction(0), F(a)) for v, a in both.items()})
+        nmod = R['n']
+        rest = [v for v in m0.variables if v not in both]
+        if list(nmod.variables) != rest or GP.of_model(nmod).nz() != expect.nz():
+            ctx.fail('property', site, ic, f'{GP.of_model(nmod).nz()} over {list(nmod.variables)} differs from the substituted polynomial {expect.nz()} over {rest}',
+                     repro=R.script(f'fixed = {both!r}\nimport itertools\nrest = [v for v in m.variables if v not in fixed]\n'
+                                    f'doms = {DOMS!r}\nvt = lambda v: (m.vartype(v).name if callable(m.vartype) else m.vartype.name)\n'
+                                    'for vals in itertools.product(*[doms[vt(v)] for v in rest]):\n    x = dict(zip(rest, vals))\n'
+                                    '    assert poly_value(n, x) == poly_value(m, {**x, **fixed}), x\n'))
+        return
+    labels, vts = gen_cqm(r, R, vartypes=('BINARY', 'SPIN', 'INTEGER', 'INTEGER'), nmax=4)
+    c = R['c']
+    if len(labels) < 2:
+        return
+    exprs = [('objective', lambda q: q.objective)] + [(f'constraint {lbl!r}', (lambda q, lbl=lbl: q.constraints[lbl].lhs)) for lbl in c.constraint_labels]
+
+    def check(q, fixed, site, ic, name):
+        both = dict(fixed)
+        rest = [v for v in c.variables if v not in both]
+        repro = R.script('\n'.join([
+            'import itertools', f'fixed = {both!r}', f'doms = {DOMS!r}', f'q = {name}', 'rest = [v for v in c.variables if v not in fixed]',
+            'assert list(q.variables) == rest, (list(q.variables), rest)',
+            'for vals in itertools.product(*[doms[c.vartype(v).name] for v in rest]):',
+            '    x = dict(zip(rest, vals)); full = {**x, **fixed}',
+            '    assert poly_value(q.objective, x) == poly_value(c.objective, full), ("objective", x)',
+            '    for lbl in c.constraint_labels:',
+            '        assert poly_value(q.constraints[lbl].lhs, x) == poly_value(c.constraints[lbl].lhs, full), (lbl, x)', '']))
+        if list(q.variables) != rest:
+            ctx.fail('property', site, ic, f'variables {list(q.variables)}, expected {rest}', repro=repro)
+            return False
+        if attrs(q) != attrs(c):
+            ctx.fail('property', site, ic, f'constraint attributes changed: {attrs(q)} vs {attrs(c)}', repro=repro)
+            return False
+        for nm, get in exprs:
+            expect = GP.of_model(get(c)).substitute({v: (Fraction(0), F(x)) for v, x in both.items()})
+            if GP.of_model(get(q)).nz() != expect.nz():
+                ctx.fail('property', site, ic, f'{nm}: {GP.of_model(get(q)).nz()} differs from the substituted polynomial {expect.nz()} (fixed {both})',
+                         repro=repro, detail=dict(script=R.lines[4:]))
+                return False
+        return True
+    k = r.randint(1, len(labels))
+    vs = r.sample(labels, k)
+    f1 = [(v, r.choice(DOMS[vts[v]])) for v in vs]
+    if which == 'cqm-copy':
+        how = r.choice(['other values', 'other values', 'other order', 'another subset'])
+        if how == 'another subset':
+            f2 = [(v, r.choice(DOMS[vts[v]])) for v in r.sample(labels, r.randint(1, len(labels)))]
+        else:
+            f2 = [(v, (r.choice(DOMS[vts[v]]) if how == 'other values' else a)) for v, a in perm_of(r, f1)]
+        s1, _ = fixed_src(r, R, f1)
+        s2, _ = fixed_src(r, R, f2)
+        R.do(f'b1 = c.fix_variables({s1}, inplace=False)')
+        R.do(f'b2 = c.fix_variables({s2}, inplace=False)')
+        site = 'CQM.fix_variables (copying)'
+        ic = f'second call on one source object: {how}'
+        ctx.tick(site + f' (twice on one object: {how})')
+        ctx.case((site, 'twice', tuple(R.lines[4:])), nontrivial=True)
+        if check(R['b2'], f2, site, ic, 'b2'):
+            check(R['b1'], f1, site, 'first result after a second call on the same source', 'b1')
+    else:
+        rest1 = [v for v in labels if v not in dict(f1)]
+        if not rest1:
+            return
+        f2 = [(v, r.choice(DOMS[vts[v]])) for v in r.sample(rest1, r.randint(1, len(rest1)))]
+        s1, _ = fixed_src(r, R, f1)
+        s2, _ = fixed_src(r, R, f2)
+        R.do('import copy; a = copy.deepcopy(c)')
+        R.do(f'a.fix_variables({s1}, inplace=True)')
+        R.do(f'a.fix_variables({s2}, inplace=True)')
+        site = 'CQM.fix_variables (in place)'
+        ctx.tick(site + ' (twice on one object)')
+        ctx.case((site, 'twice', tuple(R.lines[4:])), nontrivial=True)
+        check(R['a'], f1 + f2, site, 'two calls in sequence on one object', 'a')
+
+
 def run(ctx):
     r = ctx.rng
     B = Batch(ctx)
@@ -479,12 +707,16 @@ def run(ctx):
                 'one-shot iterables zip / generator / iter / map), CQM in place and copying; a case = one fixing call; results compared '
                 'coefficient-wise with polynomial substitution and on every assignment of the remaining variables')
     for i in range(n):
-        kind = r.choice(['model', 'model', 'cqm', 'cqm', 'cqm', 'poly'])
+        kind = r.choice(['model', 'model', 'cqm', 'cqm', 'cqm', 'poly', 'poly', 'comphist', 'twice'])
         ctx.tick('kind:' + kind)
         if kind == 'model':
             case_model_fix(ctx, r, B)
         elif kind == 'cqm':
             case_cqm_fix(ctx, r, B)
+        elif kind == 'comphist':
+            case_composite_history(ctx, r, B)
+        elif kind == 'twice':
+            case_fix_twice(ctx, r, B)
         else:
             case_poly_fix(ctx, r, B)
         if len([f for f in ctx.failures if f['kind'] == 'property']) >= 12:
